@@ -156,6 +156,131 @@ def _add_hostile_params(rng, algo, desc):
     desc.insert(rng.randint(0, len(desc)), {'name': 'xtr', 'kind': 'DOUBLE', 'lo': lo, 'hi': hi,
                                             'scale': scale, 'default': None})
 
+# ---------------------------------------------------------------------------
+# hostile configurations: what a user can configure although no algorithm can
+# honour it. The builders validate neither the scale type against the range
+# ("scale_type: NOT VALIDATED") nor the default value against the domain, so
+# such studies exist; the property wants them refused or answered inside the
+# domain.
+# ---------------------------------------------------------------------------
+_NONFINITE = {'nan': float('nan'), 'inf': float('inf'), '-inf': -float('inf')}
+
+
+def default_of(p):
+  """The configured default of a description; non-finite DOUBLE defaults are spelled as strings
+  inside a case (so that a recorded case stays JSON) and decoded here."""
+  d = p.get('default')
+  if p['kind'] == 'DOUBLE' and isinstance(d, str):
+    return _NONFINITE[d]
+  return d
+
+
+def decode_desc(desc):
+  return [dict(p, default=default_of(p)) for p in desc]
+
+
+def sign_class(p):
+  """Where the range of a numeric parameter lies relative to zero (None: strictly positive)."""
+  lo = p['lo'] if p['kind'] in ('DOUBLE', 'INTEGER') else min(p['values'])
+  hi = p['hi'] if p['kind'] in ('DOUBLE', 'INTEGER') else max(p['values'])
+  if lo > 0:
+    return None
+  if lo == 0:
+    return 'lower-bound-zero' if hi > 0 else 'nonpositive-range'
+  return 'straddles-zero' if hi > 0 else 'nonpositive-range'
+
+
+HS_SIGNS = ['straddles-zero', 'lower-bound-zero', 'nonpositive-range']
+HS_SCALES = ['LOG', 'REVERSE_LOG']
+
+
+def unscalable_param(hrng, kinds, name='hs', sign=None, scale=None):
+  """A numeric parameter whose scale type does not fit its range."""
+  kind = hrng.choice(kinds)
+  sign = sign or hrng.choice(['straddles-zero'] + HS_SIGNS)
+  scale = scale or hrng.choice(['LOG', 'LOG', 'LOG', 'REVERSE_LOG', 'REVERSE_LOG', 'UNIFORM_DISCRETE'])
+  p = {'name': name, 'kind': kind, 'scale': scale, 'default': None}
+  if kind == 'DOUBLE':
+    if sign == 'straddles-zero':
+      lo, hi = -hrng.choice([0.5, 1.0, 1e-3, 50.0, 1e6]), hrng.choice([0.5, 10.0, 1e-3, 1e4])
+    elif sign == 'lower-bound-zero':
+      lo, hi = 0.0, hrng.choice([1.0, 1e-6, 100.0, 1e9])
+    else:
+      hi = hrng.choice([0.0, -1e-3, -1.0])
+      lo = hi - hrng.choice([0.5, 10.0, 1e3])
+    p['lo'], p['hi'] = float(lo), float(hi)
+  elif kind == 'INTEGER':
+    if sign == 'straddles-zero':
+      lo, hi = -hrng.choice([1, 2, 3, 5, 30]), hrng.choice([1, 4, 12, 40])
+    elif sign == 'lower-bound-zero':
+      lo, hi = 0, hrng.choice([1, 3, 20, 200])
+    else:
+      hi = hrng.choice([0, -1, -3])
+      lo = hi - hrng.choice([1, 4, 12, 30])
+    p['lo'], p['hi'] = int(lo), int(hi)
+  else:
+    n = hrng.choice([2, 3, 5, 12])
+    vals = set()
+    if sign == 'lower-bound-zero':
+      vals.add(0.0)
+    while len(vals) < n:
+      v = round(10 ** hrng.uniform(-2, 2), 3) if hrng.random() < 0.5 else float(hrng.randint(1, 40))
+      if sign == 'nonpositive-range' or (sign == 'straddles-zero' and (len(vals) % 2 == 0)):
+        v = -v
+      vals.add(v)
+    p['values'] = sorted(vals)
+  return p
+
+
+def infeasible_default(hrng, p):
+  """Gives parameter description `p` a default value outside its domain (in place)."""
+  k = p['kind']
+  if k == 'BOOL':
+    # add_bool_param only takes True/False; the same domain as a two-valued categorical
+    p['kind'], k = 'CATEGORICAL', 'CATEGORICAL'
+  if k == 'DOUBLE':
+    lo, hi = p['lo'], p['hi']
+    span = max(hi - lo, abs(hi), abs(lo), 1.0)
+    cand = [hi + span, lo - span, hi + 0.5 * span, math.nextafter(hi, math.inf),
+            math.nextafter(lo, -math.inf)]
+    cand = [c for c in cand if math.isfinite(c) and not lo <= c <= hi]
+    if hrng.random() < 0.15:
+      cand = list(_NONFINITE)     # JSON-able spellings, see default_of()
+  elif k == 'INTEGER':
+    cand = [p['hi'] + 1, p['lo'] - 1, p['hi'] + 40, p['lo'] - 40]
+  elif k == 'DISCRETE':
+    vals = p['values']
+    v = hrng.choice(vals)
+    cand = [max(vals) + 1.0, min(vals) - 1.0, math.nextafter(v, math.inf)]
+    if len(vals) > 1:
+      j = hrng.randrange(len(vals) - 1)
+      cand.append((vals[j] + vals[j + 1]) / 2)
+    cand = [c for c in cand if all(float(c) != float(f) for f in vals)]
+  else:
+    v = hrng.choice(p['values'])
+    cand = [v.swapcase(), v + ' ', ' ' + v, v.lower(), 'zzz', '1' if v != '1' else '2']
+    cand = [c for c in cand if c not in p['values']]
+  p['default'] = hrng.choice(cand)
+  return p
+
+
+def _make_hostile(hrng, algo, route, desc, opts, force=None):
+  """Mutates `desc` (and `opts`) in place; returns the list of hostile classes applied.
+
+  force: None (random slice) or {'sign':.., 'scale':..} (the stratified block)."""
+  u = hrng.random()
+  if force is not None or (u < 0.08 and algo not in ('BOCS', 'HARMONICA')):
+    kinds = ['DOUBLE'] if algo == 'CMA_ES' else ['DOUBLE', 'DOUBLE', 'INTEGER', 'DISCRETE']
+    desc.insert(hrng.randint(0, len(desc)), unscalable_param(hrng, kinds, **(force or {})))
+    return ['unscalable']
+  if 0.08 <= u < 0.16 and route != 'designer':
+    # only the seeding wrappers read default values
+    infeasible_default(hrng, hrng.choice(desc))
+    if hrng.random() < 0.7:
+      opts['wrap_seed_default'] = True
+    return ['infeasible-default']
+  return []
+
 
 def _metrics_for(rng, algo, negative, gp):
   n = 1
@@ -252,11 +377,14 @@ def _history_for(rng, algo, desc, nmetrics, route, gp, mcls):
   return hist
 
 
-def gen_case(rng, algo, route, tier, gp=False, name=None):
+def gen_case(rng, algo, route, tier, gp=False, name=None, hrng=None, force=None):
+  """`hrng` (a second per-case generator) decides the hostile-configuration slices, so
+  that the cases outside these slices are the same with and without them."""
   negative = (not gp) and rng.random() < 0.12
   desc = _space_for(rng, algo, negative, gp)
   metrics = _metrics_for(rng, algo, negative, gp)
   opts = _opts_for(rng, algo, route, len(desc), gp, tier)
+  hostile = _make_hostile(hrng, algo, route, desc, opts, force) if (hrng is not None and not gp) else []
   if algo in ('EAGLE_STRATEGY', 'NSGA2') or opts.get('dtype') == 'float32':
     # these compute in float32: bounds beyond its range (3.4e38) are not representable
     # in the designer's dtype, nothing is demanded there
@@ -265,6 +393,8 @@ def gen_case(rng, algo, route, tier, gp=False, name=None):
       desc = gen.gen_space(rng, 1, 3)
   mcls = rng.choice(['uniform', 'uniform', 'constant', 'big', 'integer'])
   hist = _history_for(rng, algo, desc, len(metrics), route, gp, mcls)
+  if 'infeasible-default' in hostile and hrng.random() < 0.8:
+    hist = []    # the default seed is only handed out to an empty study
   if negative and algo in ('BOCS', 'HARMONICA') and any(p['kind'] != 'BOOL' for p in desc) and any(
       p['kind'] == 'BOOL' for p in desc):
     # enough clean history to get past the random warm-up into the model phase
@@ -307,7 +437,8 @@ def gen_case(rng, algo, route, tier, gp=False, name=None):
       r['fates'] = ['C' if f == 'I' else f for f in r['fates']]
   return {'route': route, 'algo': algo, 'name': name or algo, 'desc': desc,
           'metrics': metrics, 'opts': opts, 'history': hist, 'rounds': rounds,
-          'mcls': mcls, 'seed': rng.getrandbits(31), 'negative': negative}
+          'mcls': mcls, 'seed': rng.getrandbits(31), 'negative': negative or bool(hostile),
+          'hostile': hostile}
 
 
 def abstraction(case):
@@ -318,7 +449,8 @@ def abstraction(case):
   o = case['opts']
   return [case['route'], case['name'], gen.space_shape(case['desc']),
           len(case['metrics']), sorted((k, str(v)) for k, v in o.items()),
-          hc, states, [r['count'] for r in case['rounds']], case['negative']]
+          hc, states, [r['count'] for r in case['rounds']], case['negative']] + (
+              [case['hostile']] if case.get('hostile') else [])
 
 
 # ---------------------------------------------------------------------------
@@ -328,6 +460,8 @@ def _kind_tag(p):
   t = p['kind']
   if p.get('scale'):
     t += '/' + p['scale']
+    if p['scale'] in ('LOG', 'REVERSE_LOG') and p['kind'] != 'CATEGORICAL' and sign_class(p):
+      t += '/' + sign_class(p)
   if p['kind'] in ('DOUBLE', 'INTEGER'):
     w = p['hi'] - p['lo']
     if w == 0:
@@ -353,6 +487,14 @@ def _raw(v):
   return v
 
 
+def _same_value(v, d):
+  if isinstance(v, str) or isinstance(d, str):
+    return isinstance(v, str) and isinstance(d, str) and v == d
+  if isinstance(v, bool) or not isinstance(v, (int, float)):
+    return False
+  return float(v) == float(d) or (math.isnan(float(v)) and math.isnan(float(d)))
+
+
 def classify(desc, params, algo, phase):
   """Abstract mechanism id of a non-member suggestion (shape only)."""
   names = [p['name'] for p in desc]
@@ -361,6 +503,18 @@ def classify(desc, params, algo, phase):
   missing = [n for n in names if n not in keys]
   extra = [k for k in keys if k not in by]
   if missing:
+    unscalable = [n for n in missing if by[n].get('scale') in ('LOG', 'REVERSE_LOG')
+                  and by[n]['kind'] in ('DOUBLE', 'INTEGER', 'DISCRETE') and sign_class(by[n])]
+    if unscalable and not extra:
+      # a LOG / REVERSE_LOG scaled parameter whose range is not strictly positive cannot be
+      # scaled; the shared scaling converter (not the algorithm) answered with non-finite
+      # features, which are silently dropped: one mechanism for every algorithm and
+      # numeric parameter type, keyed by scale type and position of the range.
+      q = by[unscalable[0]]
+      return (f'unscalable-parameter-dropped:{q["scale"]}:{sign_class(q)}',
+              f'{q["kind"]} parameter {q["name"]!r} (scale {q["scale"]}, range '
+              f'{[q["lo"], q["hi"]] if "lo" in q else q["values"]}) absent from the suggestion of {algo} '
+              f'(phase {phase}) instead of the study being refused')
     numeric = [n for n in names if by[n]['kind'] in ('DOUBLE', 'INTEGER', 'DISCRETE')]
     if (algo in GPS and sorted(missing) == sorted(numeric)
         and not extra):
@@ -380,6 +534,14 @@ def classify(desc, params, algo, phase):
     if gen.member1(p, v):
       continue
     k = p['kind']
+    d = default_of(p)
+    if (phase == 'default-seed' and d is not None and not isinstance(d, bool)
+        and not gen.member1(p, d) and _same_value(v, d)):
+      # the configured default itself is outside the domain and the seeding handed it
+      # out unchecked (independent of the algorithm behind the seeding wrapper)
+      return (f'infeasible-default-handed-out:{k}',
+              f'{p["name"]}={v!r}: the configured default_value is outside {p} and was handed out as '
+              f'the seed suggestion ({algo}) instead of the study being refused')
     anomaly = 'not-in-feasible-set'
     if k in ('DOUBLE', 'INTEGER', 'DISCRETE'):
       if isinstance(v, bool) or not isinstance(v, (int, float)):
@@ -434,6 +596,9 @@ def check_params(ctx, case, params, phase, where, metadata=None):
       mech, f'{case["name"]} via {case["route"]} ({where}, phase {phase}): {what}',
       case, {'suggestion': shown, 'where': where, 'phase': phase,
              'designer_debug_metadata': _gp_debug(metadata) if metadata is not None else None})
+  if case.get('hostile') and case.get('kind') != 'default-seed':
+    # one witness per hostile case is enough (every further suggestion repeats it)
+    raise StopCase()
   return False
 
 
@@ -442,7 +607,7 @@ def check_params(ctx, case, params, phase, where, metadata=None):
 # ---------------------------------------------------------------------------
 def build_problem(case):
   from vizier import pyvizier as vz
-  space = gen.build_space(case['desc'])
+  space = gen.build_space(decode_desc(case['desc']))
   mi = [vz.MetricInformation(m['name'], goal=getattr(vz.ObjectiveMetricGoal, m['goal']))
         for m in case['metrics']]
   return vz.ProblemStatement(search_space=space, metric_information=mi)
@@ -866,6 +1031,10 @@ def run_service(ctx, case):
 ROUTES = {'designer': run_designer, 'policy': run_policy, 'service': run_service}
 
 
+class StopCase(Exception):
+  """Ends a case of the hostile slices after its first violation."""
+
+
 class CaseTimeout(Exception):
   """Raised by the per-case alarm: the repository code did not return."""
 
@@ -874,9 +1043,27 @@ def _on_alarm(signum, frame):
   raise CaseTimeout('no answer within the per-case time limit')
 
 
+class _time_limit:
+  """Per-case alarm: repository code that does not return raises CaseTimeout."""
+
+  def __init__(self, seconds):
+    self.seconds = seconds
+
+  def __enter__(self):
+    self.old = signal.signal(signal.SIGALRM, _on_alarm)
+    signal.setitimer(signal.ITIMER_REAL, self.seconds)
+
+  def __exit__(self, *exc):
+    signal.setitimer(signal.ITIMER_REAL, 0)
+    signal.signal(signal.SIGALRM, self.old)
+    return False
+
+
 def run_case(ctx, case, index=None):
   if case['negative']:
     ctx.count('negative_slice_cases')
+  for h in case.get('hostile') or []:
+    ctx.count({'unscalable': 'hostile_scale_cases', 'infeasible-default': 'infeasible_default_cases'}[h])
   _history_counters(ctx, case)
   # A designer that never returns (seen: EagleStrategyDesigner with
   # infeasible_force_factor > 0 spins in FireflyPool.get_next_moving_fly_copy)
@@ -893,6 +1080,8 @@ def run_case(ctx, case, index=None):
     checked, outcome = ROUTES[case['route']](ctx, case)
   except CaseTimeout as e:
     checked, outcome = 0, _refused(ctx, case, 'anywhere', e)
+  except StopCase:
+    checked, outcome = 1, ('STOPPED-AFTER-VIOLATION',)
   finally:
     signal.setitimer(signal.ITIMER_REAL, 0)
     signal.signal(signal.SIGALRM, old)
@@ -901,6 +1090,11 @@ def run_case(ctx, case, index=None):
     ctx.note(f'per-case time limit hit: {case["name"]} via {case["route"]} opts={case["opts"]}')
   ctx.case(abstraction(case), nontrivial=checked > 0)
   ctx.count('outcome:' + outcome[0])
+  if 'unscalable' in (case.get('hostile') or []):
+    q = [p for p in case['desc'] if p['name'] == 'hs'][0]
+    ctx.count(f'hostile_scale_outcome:{q["scale"]}:{sign_class(q)}:{outcome[0]}')
+    if outcome[0] == 'REFUSED':
+      ctx.count('hostile_scale_refused')
   if outcome[0] == 'REFUSED' and not case['negative']:
     ctx.count(f'refused_on_documented_space:{case["name"]}:{case["route"]}')
   return checked, outcome
@@ -913,6 +1107,11 @@ EXTREME_BOUNDS = [(1e-200, 1e-150), (1e150, 1e200), (1e-300, 1e-10), (1e10, 1e30
                   (1e-310, 1e-305), (5e-324, 1.0)]
 
 
+# algorithm names whose policy the factory wraps into the seeding DesignerPolicy
+SEEDING_NAMES = ['DEFAULT', 'GP_UCB_PE', 'GAUSSIAN_PROCESS_BANDIT', 'BOCS', 'HARMONICA']
+_SEED_ROUTES = {0: 'designer-policy', 6: 'designer-policy', 2: 'factory-policy', 8: 'factory-policy', 4: 'service'}
+
+
 def check_default_seed(ctx, rng, index):
   desc = gen.gen_space(rng, 1, 6)
   if rng.random() < 0.3:
@@ -921,31 +1120,117 @@ def check_default_seed(ctx, rng, index):
     desc.insert(rng.randint(0, len(desc)), {'name': f'xtr{index}', 'kind': 'DOUBLE', 'lo': lo, 'hi': hi,
                                             'scale': scale, 'default': None})
     ctx.count('default_seed_extreme_magnitude_spaces')
-  case = {'route': 'designer', 'algo': 'DEFAULT_SEED', 'name': 'DEFAULT_SEED',
-          'desc': desc, 'metrics': [{'name': 'obj', 'goal': 'MAXIMIZE'}],
-          'opts': {}, 'history': [], 'rounds': [], 'mcls': 'uniform', 'seed': 0,
-          'negative': False, 'kind': 'default-seed'}
-  default_seed_case(ctx, case)
+  hrng = ctx.rng(index, 'default-seed-hostile')
+  hostile = []
+  if hrng.random() < 0.3:
+    # a default value outside the domain (stale after narrowing the bounds, inexact float,
+    # misspelt category): refuse, or seed with something inside the domain
+    infeasible_default(hrng, hrng.choice(desc))
+    hostile = ['infeasible-default']
+  routes = ['direct']
+  if index % 12 in _SEED_ROUTES:
+    routes.append(_SEED_ROUTES[index % 12])
+  for seed_route in routes:
+    case = {'route': 'designer' if seed_route == 'direct' else ('service' if seed_route == 'service' else 'policy'),
+            'algo': 'DEFAULT_SEED', 'name': 'DEFAULT_SEED',
+            'desc': desc, 'metrics': [{'name': 'obj', 'goal': 'MAXIMIZE'}],
+            'opts': {}, 'history': [], 'rounds': [], 'mcls': 'uniform', 'seed': hrng.getrandbits(31),
+            'negative': bool(hostile), 'hostile': hostile, 'kind': 'default-seed',
+            'seed_route': seed_route, 'index': ['default-seed', index]}
+    if seed_route == 'designer-policy':
+      case['opts'] = {'inner': hrng.choice(['RANDOM_SEARCH', 'QUASI_RANDOM_SEARCH', 'GRID_SEARCH']),
+                      'count': hrng.choice([1, 1, 2, 3])}
+    elif seed_route != 'direct':
+      case['name'] = hrng.choice(SEEDING_NAMES)
+      case['opts'] = {'count': 1}   # the seed alone: the designer behind it is never built
+    with _time_limit(30):
+      try:
+        default_seed_case(ctx, case)
+      except CaseTimeout as e:
+        _refused(ctx, case, 'anywhere', e)
+        ctx.count(f'case_timeouts:default-seed:{seed_route}')
+
+
+def _first_suggestions(ctx, case):
+  """-> list of ParameterDict handed out to an empty study through `seed_route`."""
+  from vizier._src.pythia import suggest_default
+  seed_route = case.get('seed_route', 'direct')
+  problem = build_problem(case)
+  if seed_route == 'direct':
+    return [suggest_default.get_default_parameters(problem.search_space)]
+  count = case['opts']['count']
+  if seed_route == 'service':
+    from vizier.service import pyvizier as svz
+    svc = _service()
+    svc['n'] += 1
+    config = svz.StudyConfig.from_problem(problem)
+    config.algorithm = case['name']
+    study = svc['clients'].Study.from_study_config(
+        config, owner='c03', study_id=f'seed-{ctx.shard}-{svc["n"]}')
+    try:
+      return [tc.materialize().parameters for tc in study.suggest(count=count, client_id='w')]
+    finally:
+      try:
+        study.delete()
+      except Exception:  # pylint: disable=broad-except
+        ctx.count('service_study_delete_failed')
+  from vizier import pythia
+  from vizier._src.algorithms.policies import designer_policy as dp
+  from vizier._src.service import policy_factory as pf
+  supporter = pythia.InRamPolicySupporter(problem)
+  if seed_route == 'designer-policy':
+    # the wrapper class the service uses for its seeded algorithms, around a cheap designer
+    from vizier._src.algorithms.designers import grid, quasi_random, random as rd
+    seed = case['seed']
+    factory = {
+        'RANDOM_SEARCH': lambda pr: rd.RandomDesigner(pr.search_space, seed=seed),
+        'QUASI_RANDOM_SEARCH': lambda pr: quasi_random.QuasiRandomDesigner(pr.search_space, seed=seed),
+        'GRID_SEARCH': lambda pr: grid.GridSearchDesigner(pr.search_space),
+    }[case['opts']['inner']]
+    policy = dp.DesignerPolicy(supporter, factory)
+  else:
+    policy = pf.DefaultPolicyFactory()(problem, case['name'], supporter, 'c03-seed-study')
+  return [t.parameters for t in supporter.SuggestTrials(policy, count)]
 
 
 def default_seed_case(ctx, case):
-  from vizier._src.pythia import suggest_default
   desc = case['desc']
+  seed_route = case.get('seed_route', 'direct')
+  hostile = bool(case.get('hostile'))
+  if hostile:
+    ctx.count('infeasible_default_cases')
   try:
-    space = gen.build_space(desc)
-    params = suggest_default.get_default_parameters(space)
+    got = _first_suggestions(ctx, case)
+  except CaseTimeout:
+    raise
   except Exception as e:  # pylint: disable=broad-except
-    _refused(ctx, case, 'get_default_parameters', e)
+    _refused(ctx, case, 'get_default_parameters' if seed_route == 'direct' else 'first-suggest', e)
+    if hostile:
+      ctx.count('infeasible_default_refused')
+    return
+  if not got:
+    ctx.count('default_seed_nothing_delivered')
     return
   ctx.count('default_seed_checked')
-  ctx.case(['default-seed', gen.space_shape(desc)], True)
-  check_params(ctx, case, params, 'default-seed', 'get_default_parameters')
+  ctx.count('default_seed_route:' + seed_route)
+  if seed_route != 'direct':
+    ctx.count('seed_with_default_first_suggestions')
+  ctx.case(['default-seed', seed_route, case['name'], case['opts'].get('count'),
+            gen.space_shape(desc), hostile], True)
+  ok = True
+  for k, params in enumerate(got):
+    ok = check_params(ctx, case, params, 'default-seed' if k == 0 else 'sample',
+                      f'{seed_route} first suggestions of an empty study, item {k}') and ok
+  if hostile and ok:
+    ctx.count('infeasible_default_answered_in_domain')
+  params = got[0]
   # the default, where one is configured, is what must be chosen
   for p in desc:
-    if p['default'] is not None and p['name'] in params:
+    d = default_of(p)
+    if d is not None and p['name'] in params and (isinstance(d, bool) or gen.member1(p, d)):
       ctx.count('default_value_respected_checked')
       v = _raw(params[p['name']])
-      want = p['default']
+      want = d
       if p['kind'] == 'BOOL':
         want = 'True' if want else 'False'
       if v != want and not (isinstance(want, (int, float)) and not isinstance(v, str)
@@ -953,7 +1238,7 @@ def default_seed_case(ctx, case):
         # documented ("suggest the default or center") but not part of the
         # property text: reported as a counter, never as a violation.
         ctx.count('configured_default_not_used')
-        ctx.note(f'get_default_parameters chose {v!r} for a {_kind_tag(p)} parameter '
+        ctx.note(f'default seeding ({seed_route}) chose {v!r} for a {_kind_tag(p)} parameter '
                  f'whose configured default is {want!r}')
 
 
@@ -1048,6 +1333,24 @@ def gp_case(ctx, j):
   return case
 
 
+HS_ALGOS = ['RANDOM_SEARCH', 'QUASI_RANDOM_SEARCH', 'NSGA2', 'EAGLE_STRATEGY', 'GRID_SEARCH',
+            'SHUFFLED_GRID_SEARCH', 'CMA_ES']
+
+
+def hostile_scale_case(ctx, j):
+  na = len(HS_ALGOS)
+  algo = HS_ALGOS[j % na]
+  combo = (j // na) % 6
+  route = ['designer', 'policy', 'service'][(j // (na * 6)) % 3]
+  case = gen_case(ctx.rng(j, 'hostile-scale'), algo, route, ctx.tier, hrng=ctx.rng(j, 'hostile-scale-h'),
+                  force={'scale': HS_SCALES[combo % 2], 'sign': HS_SIGNS[combo // 2]})
+  # the scaler is built at construction / first suggest: short histories and two rounds are enough
+  case['history'] = case['history'][:3]
+  case['rounds'] = case['rounds'][:2]
+  case['index'] = ['hostile-scale', j]
+  return case
+
+
 def layout(ctx):
   """-> (is_gp_shard, gp_rank, n_gp_shards, cheap_rank, n_cheap_shards)."""
   n = ctx.nshards
@@ -1100,6 +1403,14 @@ def run_shard(ctx):
     case['index'] = ['mixed-bool-witness', w]
     run_case(ctx, case)
     ctx.count('mixed_boolean_witness_cases_run')
+  # stratified block: every algorithm that scales its features x {LOG, REVERSE_LOG} x position of a
+  # not strictly positive range, first through the designer, then the policy, then the service
+  for j in range(len(HS_ALGOS) * 6 * (3 if quick else 12)):
+    if j % n_cheap != (cheap_rank or 0) or ctx.out_of_time():
+      continue
+    case = hostile_scale_case(ctx, j)
+    run_case(ctx, case)
+    ctx.count('hostile_scale_block_cases_run')
   n_cases = 3400 if quick else 90000
   n_seed = 600 if quick else 12000
   for i in range(n_seed):
@@ -1113,7 +1424,7 @@ def run_shard(ctx):
       ctx.note(f'time budget reached at cheap case {i}')
       break
     algo, route = _SLOTS[i % len(_SLOTS)]
-    case = gen_case(ctx.rng(i), algo, route, ctx.tier)
+    case = gen_case(ctx.rng(i), algo, route, ctx.tier, hrng=ctx.rng(i, 'hostile'))
     case['index'] = ['cheap', i]
     run_case(ctx, case)
     if i < 2:
@@ -1134,7 +1445,8 @@ def extra_coverage(tier, counters):
 
 def replay(ctx, case):
   if case.get('kind') == 'default-seed':
-    default_seed_case(ctx, case)
+    with _time_limit(60):
+      default_seed_case(ctx, case)
     return
   unseeded = case['route'] != 'designer'
   for _ in range((3 if case['algo'] in GPS else 25) if unseeded else 1):
